@@ -176,7 +176,7 @@ class BaseFormOperator(Operator, BaseForm, Counted):
         """Default repr string construction for base form operators."""
         r = f"{type(self).__name__}("
         r += ", ".join(repr(op) for op in self.ufl_operands)
-        r += "; {self.ufl_function_space()!r}; "
+        r += f"; {self.ufl_function_space()!r}; "
         r += ", ".join(repr(arg) for arg in self.argument_slots())
         r += f"; derivatives={self.derivatives!r})"
         return r
